@@ -103,8 +103,8 @@ func (fs *FS) begin(call string, h *Ent, detail string) int {
 		if h.Released > 0 {
 			fs.problem("%s called on entry #%d (%s) after it was released by %s", call, h.ID, h.PathStr, h.By)
 		}
-		if h.inCall > 0 {
-			fs.problem("%s on entry #%d (%s) overlaps another call on the same entry", call, h.ID, h.PathStr)
+		if h.inCall > 0 || (h.file != nil && h.file.inCall > 0) {
+			fs.problem("%s on entry #%d (%s) overlaps another call on the same entry or its open file", call, h.ID, h.PathStr)
 		}
 		h.inCall++
 	}
